@@ -596,6 +596,10 @@ class NEval:
     def fn_allocated(self, node):
         raise SkipClause("allocated")
 
+    def fn_count_in(self, node):
+        s_ = set(self.ev(node.args[1]))
+        return sum(1 for x in self.ev(node.args[0]) if self.getattr_(x, "name") in s_)
+
     def fn_card_in(self, node):
         return len(set(self.ev(node.args[0])) & set(self.ev(node.args[1])))
 
